@@ -9,6 +9,7 @@ import TFV.Properties.Src.GrowMut
 import TFV.Properties.Src.PointMut
 import TFV.Properties.Src.Swap
 import TFV.Properties.Src.Grow
+import TFV.Properties.Src.GPTrial
 #print axioms TFV.Tree.C08_subtree_wf
 #print axioms TFV.Tree.C08_concat_wf
 #print axioms TFV.Tree.C08_depth_concat
@@ -41,3 +42,4 @@ import TFV.Properties.Src.Grow
 #print axioms TFV.SrcTie.C08_src_full_growing_method
 #print axioms TFV.SrcTie.C08_src_growing_method
 #print axioms TFV.SrcTie.C08_src_init_closed
+#print axioms TFV.SrcTie.C08_src_gp_offspring
